@@ -10,7 +10,7 @@
    (rio_xml 0.8.6 formatter.rs), and the two readers: strict = false is rio_xml's parser over
    quick-xml (unesc, no normalisation, whitespace-only text dropped), strict = true is XML 1.0
    (Char, 2.11, 3.3.3, references) + Namespaces + RDF/XML for the vocabulary the formatter uses. *)
-From Sophia.C18 Require Import Model Proofs Paths PathsProofs.
+From Sophia.C18 Require Import Model Proofs Paths PathsProofs Iris IrisProofs.
 
 (* ---- (1) escaping and its inverse (quick-xml / XML 1.0) ---- *)
 Check (rio_unescape_escape : forall s : str, rio_unescape (escape s) = Some s).
@@ -115,6 +115,43 @@ Check (ser_limited_exact : forall guard k g d, serialize guard k g = SerOk d ->
 Check (ser_limited_error : forall guard k g n, (forall d, serialize guard k g <> SerOk d) -> ser_limited guard k g n = false).
 Check ex_container. Check ex_calls. Check ex_calls_error. Check ex_graph_digit_label. Check ex_limited.
 
+(* ---- (8) IRIs of every RFC 3986 / 3987 shape, in every position (C18/Iris.v) ---- *)
+(* what makes a text an IRI is its scheme: ALPHA *( ALPHA / DIGIT / "+" / "-" / "." ) ":" and nothing else *)
+Check (scheme_of_complete : forall s rest, scheme_ok s = true -> scheme_of (s ++ 58 :: rest) = Some (s, rest)).
+Check (scheme_of_sound : forall i s rest, scheme_of i = Some (s, rest) -> i = s ++ 58 :: rest /\ scheme_ok s = true).
+Check (has_scheme_prefix : forall s rest, scheme_ok s = true -> has_scheme (s ++ 58 :: rest) = true).
+Check (has_scheme_inv : forall i, has_scheme i = true -> exists s rest, i = s ++ 58 :: rest /\ scheme_ok s = true).
+(* sophia's convert_triple does not look inside IRIs: nothing is dropped on account of a scheme, an authority, ... *)
+Check (convert_any_iri : forall a p b : str,
+  convert (Iri a, Iri p, Iri b) = CRio (SNode (RIri a)) p (OObj (ONode (RIri b)))).
+Check (convert_any_datatype : forall a p v d : str,
+  convert (Iri a, Iri p, LitDt v d) = CRio (SNode (RIri a)) p (OObj (if str_eqb xsd_string d then OSimple v else OTyped v d))).
+Check (collect_keeps_every_triple : forall g,
+  forallb representable g = true -> snd (collect false g) = None /\ map unconvert (rts g) = g).
+(* Rio's reader: IRIs come back character for character, with or without a base *)
+Check (ox_resolve_iri : forall base i, has_scheme i = true -> ox_resolve base i = Some i).
+Check (parse_iris_roundtrip : forall f P k g,
+  (forall i, P i = true -> f i = Some i) ->
+  forallb flat3 g = true -> forallb expressible (rts g) = true ->
+  forallb (triple_valid false) (rts g) = true -> forallb (t_pos P) (rts g) = true ->
+  serialize true k g = SerOk (flatten (doc_events k (map (ren_t true) (rts g))))
+  /\ parse_iris f true k g = Some (expected_parse true g)).
+Check (iris_roundtrip_nobase : forall k g,
+  forallb flat3 g = true -> forallb expressible (rts g) = true ->
+  forallb (triple_valid false) (rts g) = true -> forallb (t_pos rio_iri) (rts g) = true ->
+  nobase_parse true k g = Some (expected_parse true g)).
+Check (iris_roundtrip_any_base : forall k base g,
+  forallb flat3 g = true -> forallb expressible (rts g) = true ->
+  forallb (triple_valid false) (rts g) = true -> forallb (t_pos iri_any_base) (rts g) = true ->
+  base_parse true k base g = Some (expected_parse true g)).
+(* relative references (generalized input) are written as they are; without a base the document is rejected *)
+Check (relative_needs_base : forall guard k g ts rs,
+  collect guard g = (ts, None) -> read false (doc_events k ts) = Some rs ->
+  forallb (t_pos rio_iri) rs = false -> nobase_parse guard k g = None).
+Check (parse_iris_indentation : forall f guard k g, parse_iris f guard k g = parse_iris f guard 0 g).
+Check shapes_are_iris. Check refs_are_relative. Check bad_are_rejected. Check rfc3986_examples.
+Check shapes_graph_in_class. Check shapes_graph_roundtrip. Check relative_example. Check ex_checkers.
+
 (* ---- non-vacuity and refutations outside the classes ---- *)
 Check ex_graph_in_both_classes. Check ex_graph_roundtrip. Check ex_graph2_guarded. Check split_examples.
 Check cr_text_refuted. Check crlf_text_refuted. Check tab_attr_refuted. Check ws_only_text_refuted.
@@ -172,3 +209,22 @@ Print Assumptions ser_limited_mono.
 Print Assumptions ser_limited_exact.
 Print Assumptions ser_limited_error.
 Print Assumptions ex_graph_digit_label.
+Print Assumptions scheme_of_complete.
+Print Assumptions scheme_of_sound.
+Print Assumptions has_scheme_prefix.
+Print Assumptions has_scheme_inv.
+Print Assumptions convert_any_iri.
+Print Assumptions convert_any_datatype.
+Print Assumptions collect_keeps_every_triple.
+Print Assumptions ox_resolve_iri.
+Print Assumptions parse_iris_roundtrip.
+Print Assumptions iris_roundtrip_nobase.
+Print Assumptions iris_roundtrip_any_base.
+Print Assumptions relative_needs_base.
+Print Assumptions parse_iris_indentation.
+Print Assumptions shapes_are_iris.
+Print Assumptions refs_are_relative.
+Print Assumptions rfc3986_examples.
+Print Assumptions shapes_graph_in_class.
+Print Assumptions shapes_graph_roundtrip.
+Print Assumptions relative_example.
